@@ -210,6 +210,17 @@ func check(c Case) (msg, key string) {
 		d := append([]byte{0x7e}, state[names[0]]...)
 		state[names[0]] = d
 		expectV, expectR = 1, 0
+	case "dup-volume": // the only recovery file exists twice under different names: still one distinct block
+		delete(state, names[0])
+		if len(vols) > 0 {
+			b, _ := os.ReadFile(filepath.Join(dir, vols[0]))
+			os.WriteFile(filepath.Join(dir, strings.Replace(vols[0], ".par2", ".copy.par2", 1)), b, 0o644)
+		}
+		expectV, expectR = 1, 0
+	case "grown-16k": // a file of exactly 16384 bytes with bytes appended (the first-16-KiB hash still matches)
+		n := names[len(names)-1]
+		state[n] = append(append([]byte{}, state[n]...), 0x41, 0x42)
+		expectV, expectR = 1, 0
 	case "length-only": // every slice intact and in place, only the length is wrong (bytes appended after a whole number of slices)
 		n := names[len(names)-1]
 		state[n] = append(append([]byte{}, state[n]...), 0x11, 0x22, 0x33)
@@ -356,8 +367,8 @@ func check(c Case) (msg, key string) {
 	return "", ""
 }
 
-var states2 = []string{"intact", "repairable", "repairable-flip", "relocation", "length-only", "create-obstructed", "swap", "unrepairable", "noparity-damaged", "noparity-intact", "damaged-index", "missing-index", "unknown-ext"}
-var states1 = []string{"intact", "repairable", "repairable-flip", "create-obstructed", "unrepairable", "noparity-damaged", "noparity-intact", "damaged-index", "missing-index", "unknown-ext"}
+var states2 = []string{"intact", "dup-volume", "grown-16k", "repairable", "repairable-flip", "relocation", "length-only", "create-obstructed", "swap", "unrepairable", "noparity-damaged", "noparity-intact", "damaged-index", "missing-index", "unknown-ext"}
+var states1 = []string{"intact", "grown-16k", "repairable", "repairable-flip", "create-obstructed", "unrepairable", "noparity-damaged", "noparity-intact", "damaged-index", "missing-index", "unknown-ext"}
 
 var usages = [][]string{{}, {"frobnicate"}, {"frobnicate", "set.par2"}, {"v"}, {"verify"}, {"r"}, {"c"}, {"c", "set.par2"}, {"create", "set.par"}, {"-bogus", "v", "set.par2"},
 	{"-g", "abc", "v", "set.par2"}, {"c", "-s", "xyz", "set.par2", "a"}, {"c", "-c", "1.5", "set.par2", "a"}, {"v", "-bogus", "set.par2"}, {"r", "-bogus", "set.par"}, {"-g"}, {"c", "-s"}}
@@ -371,6 +382,17 @@ func mk(format, state string, i int) Case {
 	} else {
 		c.Files = []scen.FileSpec{{Name: "a.dat", Size: 20, Kind: "random", Seed: uint64(i + 1)}, {Name: "b b.bin", Size: 5 + i%7, Kind: "random", Seed: uint64(i + 2)}, {Name: "c.x", Size: 33, Kind: "random", Seed: uint64(i + 3)}}
 		c.N = 1 + i%2
+	}
+	if state == "dup-volume" {
+		c.N = 1
+	}
+	if state == "grown-16k" {
+		c.Files[len(c.Files)-1].Size = 16384
+		if format == "par2" {
+			c.Slice = []int{64, 1024, 4096}[i%3]
+			c.Files[0].Size = 2*c.Slice + 1
+			c.Files[1].Size = c.Slice
+		}
 	}
 	return c
 }
@@ -450,6 +472,12 @@ func TestCheck(t *testing.T) {
 			}
 			// enough blocks to repair the first file / the last file's single slice
 			c.N = (c.Files[0].Size+c.Slice-1)/c.Slice + rapid.IntRange(0, 2).Draw(rt, "extra")
+			if c.State == "dup-volume" {
+				c.N = 1
+			}
+			if c.State == "grown-16k" {
+				c.Files[len(c.Files)-1].Size = 16384
+			}
 			if c.State == "length-only" {
 				c.Files[len(c.Files)-1].Size = c.Slice * rapid.IntRange(1, 3).Draw(rt, "whole")
 			}
@@ -463,6 +491,9 @@ func TestCheck(t *testing.T) {
 				c.Files = append(c.Files, scen.FileSpec{Name: []string{"a.dat", "b b.bin", "c.x", "d"}[i], Size: rapid.IntRange(1, 200).Draw(rt, "size"), Kind: "random", Seed: rapid.Uint64Range(1, 1<<30).Draw(rt, "seed")})
 			}
 			c.N = rapid.IntRange(1, nf-1).Draw(rt, "n")
+			if c.State == "grown-16k" {
+				c.Files[len(c.Files)-1].Size = 16384
+			}
 		}
 		if !do(c) {
 			rt.Fatalf("C20 failed")
